@@ -41,6 +41,11 @@ PROPS = {
                           thorough=dict(plain=4000000, asan=400000, tsan=400000)),
                 real=["tlx/semaphore.hpp", "tlx/thread_barrier_mutex.hpp", "tlx/thread_barrier_spin.hpp"],
                 stub=["std::mutex", "std::condition_variable", "std::atomic", "std::this_thread::yield", "std::thread (scheduler shims over real ::std objects)"]),
+    "C12": dict(harness="c12_cptr", concurrent=True,
+                runs=dict(quick=dict(plain=200000, asan=40000, tsan=40000),
+                          thorough=dict(plain=4000000, asan=800000, tsan=800000)),
+                real=["tlx/counting_ptr.hpp (CountingPtr, ReferenceCounter, deleters)"],
+                stub=["std::atomic", "std::thread (scheduler shims over real ::std objects)"]),
 }
 
 SIM_NAMES = ["strategy", "param", "pct_k", "spurious_permille", "spurious_budget", "notify_choice",
@@ -89,7 +94,7 @@ def classify_stderr(text):
         return None, ""
     start = m.start()
     func = ""
-    for fm in re.finditer(r"#\d+ 0x[0-9a-f]+ in (.+?) (/\S+?):(\d+)", text[start:]):
+    for fm in re.finditer(r"#\d+ (?:0x[0-9a-f]+ in )?(.+?) (/\S+?):(\d+)", text[start:]):
         if "/tlx/" in fm.group(2) and "/verif/" not in fm.group(2):
             func = simplify_func(fm.group(1)) + "@" + os.path.basename(fm.group(2))
             break
